@@ -37,7 +37,21 @@ OBJ_NAMES = ['AIC', 'AICc', 'GCV', 'UBRE']
 KNOWN_SCALE = {'LinearGAM': False, 'LinearGAM-known': True, 'PoissonGAM': True, 'LogisticGAM': True, 'GammaGAM': False,
                'Scripted': False, 'Scripted-known': True}
 SCORE_RTOL = 1e-6          # warm-started vs cold fit, both converged with tol 1e-8
+COEF_RTOL = 1e-5           # coefficients (relative 2-norm); directions aliased with the intercept carry noise up to 1e-7
 FAIL_MARGIN = 10.0
+
+
+def score_rtol(tol, in_search_converged):
+    """A candidate that did NOT converge inside the search can only be `max_iter iterations from the cold initial
+    estimate`, the very computation of the independent fit (bit-identical on the unchanged tree): flat tolerance.  Two
+    converged fits stopped within `tol` of the optimum by different routes: the tolerance follows `tol` (1e-6 at the 1e-8 of
+    the older streams; calibrated: observed <= 0.03 tol)."""
+    return max(SCORE_RTOL, tol) if in_search_converged else SCORE_RTOL
+
+
+def coef_rtol(tol, in_search_converged):
+    """same for the coefficients (calibrated: observed <= 6 tol, noise <= 1e-7)"""
+    return max(COEF_RTOL, 10.0 * tol) if in_search_converged else COEF_RTOL
 
 
 # known findings on the unchanged tree: tag head -> (id used as selector {'known': id}, minimal reproduction, expectation)
@@ -231,7 +245,7 @@ def build_terms(pygam, terms, over=None):
     return out
 
 
-SCALARS = ('max_iter', 'fit_intercept')
+SCALARS = ('max_iter', 'fit_intercept', 'tol')
 
 
 def build_model(pygam, spec, over=None, scripted_cls=None):
@@ -240,7 +254,7 @@ def build_model(pygam, spec, over=None, scripted_cls=None):
     for p in SCALARS:
         if p in over:
             v = over.pop(p)[0]
-            kw[p] = bool(v) if p == 'fit_intercept' else int(v)
+            kw[p] = bool(v) if p == 'fit_intercept' else (float(v) if p == 'tol' else int(v))
     terms = build_terms(pygam, spec['terms'], over)
     cls = spec['cls']
     if cls == 'LinearGAM':
@@ -400,13 +414,63 @@ def converged(m):
         return False
 
 
+def coef_of(m):
+    """coefficients of a model as a float vector, or None (a broken library must not crash the harness)"""
+    try:
+        a = np.asarray(m.coef_, dtype=float).ravel()
+    except Exception:      # noqa
+        return None
+    return a
+
+
+def cold_entry_finite(score, coef):
+    return bool(np.isfinite(score)) and coef is not None and bool(np.isfinite(coef).all())
+
+
+def compare_with_cold(score, m, c):
+    """one candidate fitted inside a search (model `m`, recorded `score`) against the independent cold fit `c` with the same
+    hyper-parameters (same max_iter / tol): score and coefficients, whether or not either of them converged"""
+    ci = converged(m)
+    thr_s = score_rtol(c['tol'], ci) * FAIL_MARGIN
+    thr_c = coef_rtol(c['tol'], ci) * FAIL_MARGIN
+    try:
+        score = float(score)
+    except Exception:      # noqa
+        score = float('nan')
+    err_s = 0.0 if score == c['score'] else abs(score - c['score']) / c['ref']
+    a = coef_of(m)
+    if a is None or len(a) != len(c['coef']):
+        err_c = float('inf')
+    elif np.array_equal(a, c['coef']):
+        err_c = 0.0
+    else:
+        err_c = float(np.linalg.norm(a - c['coef']) / max(float(np.linalg.norm(c['coef'])), 1e-300))
+    return dict(ci=ci, cc=bool(c['conv']), err_s=err_s, err_c=err_c, thr_s=thr_s, thr_c=thr_c,
+                ok_s=bool(err_s <= thr_s), ok_c=bool(err_c <= thr_c), ok=bool(err_s <= thr_s) and bool(err_c <= thr_c))
+
+
+def reversed_grids(grids):
+    """the same grids with every axis reversed: gridsearch then meets the same candidates in the reverse order"""
+    out = []
+    for g in grids:
+        d = dict(g['desc'])
+        if d['kind'] == '1d':
+            d['values'] = list(d['values'])[::-1]
+        elif d['kind'] == '2d':
+            d['rows'] = [list(r) for r in d['rows']][::-1]
+        elif d['kind'] == 'nested':
+            d['subs'] = [list(x)[::-1] if isinstance(x, list) else x for x in d['subs']]
+        out.append(dict(param=g['param'], desc=d))
+    return out
+
+
 # ------------------------------------------------------------------------------------------------
 # real-fit worker (runs in a pool): implementation run + property oracle with independent cold fits
 # ------------------------------------------------------------------------------------------------
 def run_real_case(spec):
     pygam = common.import_pygam()
     X, y, w, e = make_data(spec)
-    res = dict(exc=None, oracle=[], notes={}, suspected=[])
+    res = dict(exc=None, oracle=[], notes={}, suspected=[], warm_only=[])
     params, want = oracle_candidates(spec)
     slots = spec_slots(spec)
     known = KNOWN_SCALE[spec['cls']]
@@ -499,7 +563,7 @@ def run_real_case(spec):
     if want is not None and robj is not None:
         cold = []
         for cand in want:
-            over = {p: [float(v) if p == 'lam' else int(v) for v in part] for p, part in zip(params, cand)}
+            over = {p: [float(v) if p in ('lam', 'tol') else int(v) for v in part] for p, part in zip(params, cand)}
             try:
                 c = build_model(pygam, spec, over)
                 with contextlib.redirect_stdout(io.StringIO()):
@@ -510,8 +574,11 @@ def run_real_case(spec):
                 ref = abs(float(c.statistics_[robj]))
                 if robj in ('AIC', 'AICc'):
                     ref = max(ref, 2.0 * abs(float(c.statistics_['loglikelihood'])) + 2.0 * float(c.statistics_['edof']))
-                entry = dict(key=key_json(cand), score=float(c.statistics_[robj]), conv=converged(c), ref=max(ref, 1e-3),
-                             ncoef=len(c.coef_), pred=c.predict_mu(X) if spec['keep_best'] else None)
+                entry = dict(key=key_json(cand), score=float(c.statistics_[robj]), conv=converged(c), ref=max(ref, 1e-3) if ref == ref else 1.0,
+                             ncoef=len(c.coef_), coef=np.array(c.coef_, dtype=float).ravel(), tol=float(c.tol),
+                             pred=c.predict_mu(X) if spec['keep_best'] else None)
+                # an independent fit that ends with nan / inf (PIRLS diverged without raising) defines no reference
+                entry['nonfinite'] = not cold_entry_finite(entry['score'], entry['coef'])
                 if 'fit_intercept' in over and not over['fit_intercept'][0]:
                     # reference for the suspected defect "a fit_intercept grid is ignored": the same candidate with an intercept
                     over2 = dict(over, fit_intercept=[1])
@@ -519,7 +586,9 @@ def run_real_case(spec):
                     with contextlib.redirect_stdout(io.StringIO()):
                         c2.fit(X, y, **fkw)
                     entry['alt'] = dict(score=float(c2.statistics_[robj]), conv=converged(c2), ncoef=len(c2.coef_),
+                                        coef=np.array(c2.coef_, dtype=float).ravel(), tol=float(c2.tol), ref=entry['ref'],
                                         pred=c2.predict_mu(X) if spec['keep_best'] else None)
+                    entry['alt']['nonfinite'] = not cold_entry_finite(entry['alt']['score'], entry['alt']['coef'])
                 cold.append(entry)
             except ValueError as ex:
                 cold.append(dict(key=key_json(cand), score=None, unstable=type(ex).__name__ in ('OptimizationError', 'NotPositiveDefiniteError')))
@@ -572,6 +641,55 @@ def run_real_case(spec):
                 wantkeys = sorted(reduced)
                 res['suspected'].append('joint n_splines/spline_order grid: valid candidates skipped because the parameters are set one '
                                         'after the other (%d of %d)' % (n_b, len(wk_all)))
+        pool = {}
+        for c in cold:
+            if c['score'] is not None:
+                pool.setdefault(json.dumps(c['key']), []).append(c)
+
+        def judge_candidates(pairs, where):
+            """each candidate's score (and coefficients) equals that of an independently fitted model with those
+            hyper-parameters -- same max_iter / tol, cold start --, converged or not; `pairs` = [(model, recorded score, key)]"""
+            worst = 0.0
+            ncmp = 0
+            for m, sc, key in pairs:
+                if json.dumps(key) not in pool:
+                    continue
+                c = pool[json.dumps(key)][0]
+                a = coef_of(m)
+                na = len(a) if a is not None else -1
+                if 'alt' in c and na != c['ncoef'] and na == c['alt']['ncoef']:
+                    # the fit_intercept=False candidate carries an intercept coefficient: known finding (a)
+                    if not any(t.startswith('fit_intercept') for t in res['suspected']):
+                        res['suspected'].append('fit_intercept grid is ignored: the candidate with fit_intercept=False is fitted with an intercept '
+                                                '(%d coefficients, an independent fit has %d)' % (na, c['ncoef']))
+                if c.get('nonfinite'):
+                    res['notes']['independent fit not finite'] = res['notes'].get('independent fit not finite', 0) + 1
+                    continue
+                cm = compare_with_cold(sc, m, c)
+                ncmp += 1
+                if 'alt' not in c and cm['err_s'] == cm['err_s'] and cm['err_s'] != float('inf'):
+                    worst = max(worst, cm['err_s'])
+                res['cmp_classes'][(cm['ci'], cm['cc'])] = res['cmp_classes'].get((cm['ci'], cm['cc']), 0) + 1
+                if cm['ok']:
+                    continue
+                if 'alt' in c and not c['alt'].get('nonfinite') and compare_with_cold(sc, m, c['alt'])['ok']:
+                    if not any(t.startswith('fit_intercept') for t in res['suspected']):
+                        res['suspected'].append('fit_intercept grid is ignored: the candidate with fit_intercept=False is fitted with an intercept')
+                    continue
+                info = dict(key=key, in_search=float(sc) if isinstance(sc, (int, float, np.floating)) else str(sc), cold=c['score'],
+                            rel=cm['err_s'], coef_rel=cm['err_c'], in_search_converged=cm['ci'], cold_converged=cm['cc'],
+                            tol=c['tol'], grid_order=where)
+                if cm['ci'] and not cm['cc']:
+                    # unchanged tree: a warm-started candidate that converges within max_iter is kept, although an independent
+                    # fit (cold start, same max_iter) does not get there: reported as a suspected defect, not as a failing input
+                    res['warm_only'].append(info)
+                    continue
+                orc.append(dict(info, kind='candidate score differs from an independent cold fit' if not cm['ok_s']
+                                else 'candidate coefficients differ from an independent cold fit'))
+                break
+            return worst, ncmp
+
+        res['cmp_classes'] = {}
         if res['returned'] == 'self' and wantkeys:
             orc.append(dict(kind='return_scores=True returned self although candidates can be fitted'))
         elif wantkeys != gotkeys:
@@ -579,41 +697,34 @@ def run_real_case(spec):
                             missing=[k for k in wantkeys if k not in gotkeys][:5],
                             unexpected=[k for k in gotkeys if k not in wantkeys][:5], n_want=len(wantkeys), n_got=len(gotkeys)))
         else:
-            # each candidate's score equals the objective of an independently fitted model
-            pool = {}
-            for c in cold:
-                if c['score'] is not None:
-                    pool.setdefault(json.dumps(c['key']), []).append(c)
-            worst = 0.0
-            nconv = 0
-            for md, (m, _) in zip(models, items):
-                if md['is_self']:
-                    continue
-                if json.dumps(md['key']) not in pool:
-                    continue
-                c = pool[json.dumps(md['key'])][0]
-                if 'alt' in c and len(m.coef_) != c['ncoef'] and len(m.coef_) == c['alt']['ncoef']:
-                    # the fit_intercept=False candidate carries an intercept coefficient: known finding (a)
-                    if not any(t.startswith('fit_intercept') for t in res['suspected']):
-                        res['suspected'].append('fit_intercept grid is ignored: the candidate with fit_intercept=False is fitted with an intercept '
-                                                '(%d coefficients, an independent fit has %d)' % (len(m.coef_), c['ncoef']))
-                if not (c['conv'] and converged(m)):
-                    continue
-                nconv += 1
-                err = abs(md['score'] - c['score']) / c['ref']
-                if 'alt' not in c:
-                    worst = max(worst, err)
-                if err > SCORE_RTOL * FAIL_MARGIN and 'alt' in c and c['alt']['conv'] and \
-                        abs(md['score'] - c['alt']['score']) / c['ref'] <= SCORE_RTOL * FAIL_MARGIN:
-                    if not any(t.startswith('fit_intercept') for t in res['suspected']):
-                        res['suspected'].append('fit_intercept grid is ignored: the candidate with fit_intercept=False is fitted with an intercept')
-                    continue
-                if err > SCORE_RTOL * FAIL_MARGIN:
-                    orc.append(dict(kind='candidate score differs from an independent cold fit', key=md['key'],
-                                    in_search=md['score'], cold=c['score'], rel=err))
-                    break
+            worst, ncmp = judge_candidates([(m, md['score'], md['key']) for md, (m, _) in zip(models, items) if not md['is_self']], 'as given')
             res['worst_score_err'] = worst
-            res['n_score_compared'] = nconv
+            res['n_score_compared'] = ncmp
+            # ... whatever the grid order: the same search with every grid reversed, against the same independent fits
+            if spec.get('reverse') and not orc:
+                g3 = fresh(spec['fitted'])
+                try:
+                    out3 = call_gridsearch(spec, g3, X, y, w, e, True, grids_kwargs(dict(spec, grids=reversed_grids(spec['grids']))))
+                except Exception as ex:      # noqa
+                    orc.append(dict(kind='the reversed grid raised where the given one did not', got=type(ex).__name__, msg=str(ex)[:200]))
+                else:
+                    pairs3 = []
+                    if out3 is not g3:
+                        for m3, sc3 in out3.items():
+                            if m3 is g3:
+                                continue
+                            k3 = key_json(read_key(m3, params, slots))
+                            if json.dumps(k3) not in unstable:
+                                pairs3.append((m3, sc3, k3))
+                    keys3 = sorted(json.dumps(k3) for _, _, k3 in pairs3)
+                    if keys3 != gotkeys:
+                        orc.append(dict(kind='the grid order changes the set of fitted candidates',
+                                        missing=[k for k in gotkeys if k not in keys3][:5], unexpected=[k for k in keys3 if k not in gotkeys][:5]))
+                    else:
+                        w3, n3 = judge_candidates(pairs3, 'reversed')
+                        res['worst_score_err'] = max(worst, w3)
+                        res['n_score_compared'] = ncmp + n3
+        res['cmp_classes'] = {'%s/%s' % ('conv' if k[0] else 'nonconv', 'conv' if k[1] else 'nonconv'): v for k, v in res['cmp_classes'].items()}
         # self if fitted: its score is that of the fit before the call
         if spec['fitted'] and pre is not None and models:
             sm = [md for md in models if md['is_self']]
